@@ -748,15 +748,15 @@ def r01_7_era_bounds(ctx: Ctx) -> RuleResult:
 
 # shared with C12: the calendar's own ordering of year/month/day triples must agree with the day-number order the conversions
 # produce (monotonicity of the date <-> day-number maps needs it); one rule, reported under its home id R12.1b
-from .c12 import r12_1b_hebrew_compare as _r12_1b  # noqa: E402
+# (cross-registration moved to sa/rules/shared.py: SHARED)
 
-rule("C01")(_r12_1b)
+# (cross-registration moved to sa/rules/shared.py: SHARED)
 
 # shared with C02: a fast path or table builder that decides leap years by its own arithmetic maps day numbers to dates that the
 # calculator proper rejects (home id R02.5)
-from .c02 import r02_5_leap_decisions as _r02_5  # noqa: E402
+# (cross-registration moved to sa/rules/shared.py: SHARED)
 
-rule("C01")(_r02_5)
+# (cross-registration moved to sa/rules/shared.py: SHARED)
 
 
 @rule("C01")
@@ -832,9 +832,9 @@ def r01_8_year_estimate_domain(ctx: Ctx) -> RuleResult:
     return rr
 
 # shared: the year-start caches (home R13.1) and the Hebrew year starts (home R02.7) feed every day-number conversion
-from .c02 import r02_7_hebrew_molad as _r02_7, r02_8_registry_round_trip as _r02_8  # noqa: E402
-from .c13 import r13_1_year_cache_keys as _r13_1b  # noqa: E402
+# (cross-registration moved to sa/rules/shared.py: SHARED)
+# (cross-registration moved to sa/rules/shared.py: SHARED)
 
-rule("C01")(_r13_1b)
-rule("C01")(_r02_7)
-rule("C01")(_r02_8)
+# (cross-registration moved to sa/rules/shared.py: SHARED)
+# (cross-registration moved to sa/rules/shared.py: SHARED)
+# (cross-registration moved to sa/rules/shared.py: SHARED)
